@@ -29,9 +29,18 @@
 namespace tbox {
 namespace event {
 
+#ifdef CPP_TBOX_VERIF
+//! verification hook: when set, replaces the loop's monotonic millisecond clock
+uint64_t (*verif_steady_ms_hook)() = nullptr;
+#endif
+
 namespace {
 uint64_t GetCurrentSteadyClockMilliseconds()
 {
+#ifdef CPP_TBOX_VERIF
+    if (verif_steady_ms_hook != nullptr)
+        return verif_steady_ms_hook();
+#endif
     return std::chrono::duration_cast<std::chrono::milliseconds> \
         (std::chrono::steady_clock::now().time_since_epoch()).count();
 }
